@@ -662,9 +662,7 @@ class Engine:
         s = self.solver
         # cheap routes first: a merged pointer is an if-then-else tree over constants (its leaves are the
         # candidates); a term over read symbols with recorded finite domains is evaluated for each combination
-        lv = ite_leaves(v) if not isinstance(v, int) else None
-        if lv is None and not isinstance(v, int):
-            lv = self.candidates(v)
+        lv = self.candidates(v) if not isinstance(v, int) else None
         if lv is not None and len(lv) <= limit:
             return [x for x in sorted(lv) if self.feasible(st, v == x)]
         self._sync(st.pc)
@@ -1841,40 +1839,92 @@ class Engine:
         else:
             st.pc.append(z3.Or(*[s == v for v in sorted(opts)]))
 
-    def candidates(self, v, limit=48):
-        """Values the term can take when each of its symbols ranges over its recorded finite domain (None if
-        some symbol has no such domain): candidate enumeration without the solver."""
-        syms = []
-        seen = set()
-        stack = [v]
-        while stack:
-            x = stack.pop()
+    def candidates(self, v, limit=64):
+        """Over-approximation of the values a bit-vector term can take, by value-set evaluation of the term
+        (read symbols range over their recorded finite domains, if-then-else takes both sides). None if the
+        set cannot be bounded. No solver involved; every candidate is checked for feasibility afterwards."""
+        memo = {}
+        K = z3
+
+        def vs(x):
+            if isinstance(x, int):
+                return {x}
             i = x.get_id()
-            if i in seen:
-                continue
-            seen.add(i)
-            if len(seen) > 3000:
+            r = memo.get(i)
+            if r is not None or i in memo:
+                return r
+            memo[i] = None
+            r = vs1(x)
+            if r is not None and len(r) > limit:
+                r = None
+            memo[i] = r
+            return r
+
+        def vs1(x):
+            if K.is_bv_value(x):
+                return {x.as_long()}
+            if not K.is_bv(x):
                 return None
-            if z3.is_const(x) and x.decl().kind() == z3.Z3_OP_UNINTERPRETED:
-                d = self.sym_domain.get(i)
-                if d is None:
+            k = x.decl().kind()
+            bits = x.size()
+            M = (1 << bits) - 1
+            if K.is_const(x) and k == K.Z3_OP_UNINTERPRETED:
+                d = self.sym_domain.get(x.get_id())
+                return set(d[1]) if d is not None else None
+            ch = x.children()
+            if k == K.Z3_OP_ITE:
+                a_, b_ = vs(ch[1]), vs(ch[2])
+                return None if a_ is None or b_ is None else a_ | b_
+            if k in (K.Z3_OP_BADD, K.Z3_OP_BMUL, K.Z3_OP_BAND, K.Z3_OP_BOR, K.Z3_OP_BXOR, K.Z3_OP_BSUB):
+                sets = [vs(c) for c in ch]
+                if any(s_ is None for s_ in sets):
                     return None
-                syms.append(d)
-            else:
-                stack.extend(x.children())
-        total = 1
-        for _, dom in syms:
-            total *= len(dom)
-            if total > limit:
-                return None
-        out = set()
-        for combo in itertools.product(*[sorted(dom) for _, dom in syms]):
-            sub = [(sym, z3.BitVecVal(val, sym.size())) for (sym, _), val in zip(syms, combo)]
-            r = simp(z3.substitute(v, *sub)) if sub else simp(v)
-            if not isinstance(r, int):
-                return None
-            out.add(r)
-        return out
+                acc = sets[0]
+                for s_ in sets[1:]:
+                    if len(acc) * len(s_) > 4 * limit:
+                        return None
+                    if k == K.Z3_OP_BADD:
+                        acc = {(p + q) & M for p in acc for q in s_}
+                    elif k == K.Z3_OP_BSUB:
+                        acc = {(p - q) & M for p in acc for q in s_}
+                    elif k == K.Z3_OP_BMUL:
+                        acc = {(p * q) & M for p in acc for q in s_}
+                    elif k == K.Z3_OP_BAND:
+                        acc = {p & q for p in acc for q in s_}
+                    elif k == K.Z3_OP_BOR:
+                        acc = {p | q for p in acc for q in s_}
+                    else:
+                        acc = {p ^ q for p in acc for q in s_}
+                return acc
+            if k in (K.Z3_OP_BSHL, K.Z3_OP_BLSHR):
+                a_, b_ = vs(ch[0]), vs(ch[1])
+                if a_ is None or b_ is None:
+                    return None
+                if k == K.Z3_OP_BSHL:
+                    return {(p << q) & M if q < bits else 0 for p in a_ for q in b_}
+                return {p >> q if q < bits else 0 for p in a_ for q in b_}
+            if k == K.Z3_OP_EXTRACT:
+                hi, lo = x.params()
+                a_ = vs(ch[0])
+                return None if a_ is None else {(p >> lo) & ((1 << (hi - lo + 1)) - 1) for p in a_}
+            if k == K.Z3_OP_ZERO_EXT:
+                return vs(ch[0])
+            if k == K.Z3_OP_CONCAT:
+                acc = {0}
+                for c in ch:
+                    s_ = vs(c)
+                    if s_ is None or len(acc) * len(s_) > 4 * limit:
+                        return None
+                    acc = {(p << c.size()) | q for p in acc for q in s_}
+                return acc
+            if k == K.Z3_OP_BNOT:
+                a_ = vs(ch[0])
+                return None if a_ is None else {(~p) & M for p in a_}
+            if k == K.Z3_OP_BNEG:
+                a_ = vs(ch[0])
+                return None if a_ is None else {(-p) & M for p in a_}
+            return None
+        return vs(v)
 
     def write_cell(self, st, addr, size, v, ordering, atomic, ins, kind='W'):
         env = self.env
